@@ -21,7 +21,11 @@ static int n_registered;
 #define TfheGarbageCollector__register_param(p) (n_registered++, (void)(p))
 #include "extracted.inc"
 void h_params(void) {
-    int32_t in_lambda; g_lambda = in_lambda; g_died = 0; n_registered = 0;
+    int32_t in_lambda; g_died = 0; n_registered = 0;
+    /* history independence: an arbitrary earlier request (any in-range lambda) precedes the one that is checked */
+    int32_t in_first; int in_has_first;
+    if (in_has_first) { __CPROVER_assume(in_first >= 1 && in_first <= 128); g_lambda = in_first; (void)new_default_gate_bootstrapping_parameters(in_first); n_registered = 0; }
+    g_lambda = in_lambda;
     TFheGateBootstrappingParameterSet *P = new_default_gate_bootstrapping_parameters(in_lambda);
     __CPROVER_assert(in_lambda >= 1 && in_lambda <= 128 && !g_died, "normal return only for 1 <= lambda <= 128");
     const LweParams *in = P->in_out_params; const TGswParams *g = P->tgsw_params; const TLweParams *t = g->tlwe_params;
